@@ -11,7 +11,10 @@ use lvharness::sx::Sx;
 use std::collections::{BTreeMap, BTreeSet};
 use std::time::Duration;
 
-const DEADLINE: Duration = Duration::from_secs(15);
+/// a reply that does not come within GRACE after the child reported a panic is a hang; without a
+/// reported panic the call may take DEADLINE (a busy machine must not look like a hang)
+const DEADLINE: Duration = Duration::from_secs(90);
+const GRACE: Duration = Duration::from_millis(2500);
 
 #[derive(Debug, Clone)]
 pub struct Violation {
@@ -543,7 +546,7 @@ impl Runner {
 
     fn req(&mut self, cmd: Sx, what: &str) -> Result<Sx, ()> {
         let p = self.proc_.as_mut().unwrap();
-        match p.request(&cmd, DEADLINE) {
+        match p.request_quick_hang(&cmd, DEADLINE, GRACE) {
             Reply::Ok(s) => {
                 if s.tag() == "panic" {
                     let m = sx_name(&s.items()[1]);
@@ -553,7 +556,7 @@ impl Runner {
                 }
                 if s.tag() == "busy" {
                     let pm = self.proc_.as_ref().unwrap().first_panic().unwrap_or_else(|| "no panic reported".into());
-                    self.violate(format!("hang:quiesce:{}", lvsig(&pm)), format!("no quiescence within 20s ({})", pm));
+                    self.violate(format!("hang:quiesce:{}", lvsig(&pm)), format!("no quiescence within 60s ({})", pm));
                     return Err(());
                 }
                 Ok(s)
